@@ -21,8 +21,10 @@ FUNCTIONS = [
     "codebasin/report.py:distance",
     "codebasin/report.py:divergence",
     "codebasin/report.py:extract_platforms",
+    "codebasin/report.py:clustering (matrix/: printed distance matrix and linkage input, concrete counts)",
 ]
-STUBS = ["report.float -> symreal.symfloat (keeps float(x) symbolic; float('nan') is NaN)"]
+STUBS = ["report.float -> symreal.symfloat (keeps float(x) symbolic; float('nan') is NaN)",
+         "matrix/: tabulate, matplotlib and scipy replaced by recorders (squareform re-implemented faithfully, both directions)"]
 ASSUMPTIONS = [
     "floats are exact rationals: IEEE-754 rounding of the three or four operations per metric is outside the claim",
     "line counts are integers >= 0; platform names are the strings A..D (and their renamings)",
@@ -32,7 +34,8 @@ ASSUMPTIONS = [
 ]
 BOUNDS = {
     "quick": "every key shape (subset of the 2^P platform sets present as keys) for P<=2 and all P=3 shapes with >=6 keys; "
-             "every non-empty `platforms` subset; all renamings of P names; one symbolic scaling factor k>=1; counts unbounded",
+             "every non-empty `platforms` subset; all renamings of P names; one symbolic scaling factor k>=1; counts unbounded; "
+             "matrix/: 3 tables (3 and 4 platforms, fixed counts) x 24 insertion orders x 24 set-iteration orders (CrossHair-enumerated)",
     "thorough": "all 256 key shapes for P=3, plus P=4 with all 16 keys and with every 15-key shape; counts unbounded",
 }
 EXPLANATION = (
@@ -82,6 +85,12 @@ def obligations(tier, known):
         obs.append(Ob(id="shape/" + sid, kind="fn", module=__name__, func="check_shape",
                       params=dict(P=P, shape=[sorted(k) for k in shape], regions=regions),
                       timeout=300 if P < 4 else 900, twin=False, group="P%d" % P))
+    # the printed distance matrix and the input of the dendrogram (report.clustering): every cell is the distance of the
+    # pair its labels name, for every insertion / iteration order (harness shared with C14's clustering/ family;
+    # table 2 and 3 have four platforms, where row-major and column-major pair orders differ)
+    for i in (1, 2, 3):
+        obs.append(Ob(id="matrix/table%d" % i, kind="ch", module="vp.harness.c14", func="h_cluster", params=dict(table=i), timeout=400,
+                      group="matrix"))
     for fid in regions:
         obs.append(Ob(id="witness/" + fid, kind="fn", module=__name__, func="check_shape",
                       params=dict(P=2, shape=[["A"], ["B"]], regions=[], witness=fid),
@@ -470,10 +479,10 @@ def replay(obd, cex):
         detail.update(exception=repr(e))
         return dict(reproduced=True, detail=detail)
 
-ENGINE = "symreal+z3"
-TECHNIQUE = "symbolic execution of the real report.py metric functions over exact z3-real fractions; one unsat query per leaf and definition"
+ENGINE = "symreal+z3, crosshair+z3 (matrix/)"
+TECHNIQUE = "symbolic execution of the real report.py metric functions over exact z3-real fractions; one unsat query per leaf and definition; the printed distance matrix of clustering() by CrossHair-enumerated orders against distance() cell by cell"
 CLAIM = ("For every key shape within the bound and ALL non-negative line counts, each metric equals its definition, stays in range, "
          "is NaN exactly when undefined, never raises, and is invariant under renaming, insertion order and scaling - decided by z3 "
          "(unsat) per execution leaf of the real functions. Bounded in the number of platforms (<=3, 4 in thorough), unbounded in counts.")
 LEVEL_NOTE = ("Trusted: z3 nonlinear real arithmetic; the operator-overloading executor vp/symreal.py (rebinding report.float); floats "
-              "treated as exact rationals. Outside: IEEE rounding, more than 4 platforms, the dendrogram.")
+              "treated as exact rationals. Outside: IEEE rounding, more than 4 platforms, the drawing of the dendrogram (its labels, the printed matrix and the linkage input are checked in matrix/, for fixed counts).")
